@@ -33,7 +33,19 @@ def scenarios(seed, tier):
         r2 = random.Random(rnd.getrandbits(48))
         s = gen.gen_portfolio(r2, tmax=8 if tier == 'quick' else 14, tz_prob=0.1, allow_periodic=False, allow_freq=False)
         s['extra_seed'] = r2.getrandbits(40)
+        if i % 3 == 0 and not any(a['type'] == 'OrderBook' for a in s['assets']):
+            nd = r2.choice([x for x in s['nodes'] if not x.endswith('_i1')])
+            s['assets'].insert(r2.randint(0, len(s['assets'])), gen.gen_orderbook(r2, s['grid'], s['prices'], s['grid']['T_nominal'], 'book', nd))
         yield 'meta%d' % i, {'stream': 'meta', 'case': s}
+    for i in range(n // 2):
+        # windows in a split optimisation, incl. intervals in which nothing is active yet
+        r2 = random.Random(rnd.getrandbits(48))
+        s = gen.gen_portfolio(r2, tmax=12, tz_prob=0.1, kinds=['simple', 'contract', 'transport', 'storage', 'multi_nt', 'plant_lp', 'simple'], allow_mip=False,
+                              allow_periodic=False, allow_freq=False, allow_blocks=False)
+        if r2.random() < 0.6:
+            gen.make_late_start(s, r2)
+        s['parts'] = r2.choice([2, 3, 4])
+        yield 'split%d' % i, {'stream': 'split', 'case': s}
 
 
 def outside_asset(rnd, scn):
@@ -93,29 +105,14 @@ def window_of(spec):
     return a.get('start'), a.get('end')
 
 
-def run_meta(scn, r):
-    feats = r['features']
-
-    def viol(msg, **facts):
-        r['violations'].append({'oracle': 'horizon_and_windows', 'detail': msg, 'facts': facts})
-    base = {k: v for k, v in scn.items() if k != 'extra_seed'}
-    for a in base['assets']:
-        feats.append('asset:' + a['type'])
-    try:
-        rec = pf.setup_mono(base)
-        pf.solve_rec(rec)
-    except Exception as e:
-        feats.append('setup-error:' + impl.err_class(e))
-        return
-    if isinstance(rec['res'], str):
-        feats.append('unsolved')
-        return
+def check_windows(base, rec, viol, feats, mode='mono'):
+    """(c) every asset's reported dispatch is zero outside its own window clipped to the horizon"""
     tg = rec['tg']
     tz = base['grid'].get('tz')
-    # (c) dispatch only inside the own window
     disp = rec['out']['dispatch']
     cols = impl.disp_cols(rec['portf'])
     scale = max(1.0, float(np.abs(disp.values).max()) if disp.size else 1.0)
+    hit = False
     for spec, a in zip(base['assets'], rec['portf'].assets):
         if spec['type'] == 'OrderBook':
             continue
@@ -139,12 +136,66 @@ def run_meta(scn, r):
             v = disp[col].values.astype(float)
             bad = np.where((~mask) & (np.abs(v) > 1e-6 * scale))[0]
             if len(bad):
-                viol('asset %r (%s) is dispatched at step %d (%.6g) outside its window' % (a.name, spec['type'], int(bad[0]), v[bad[0]]), what='outside_window', asset_type=spec['type'])
+                viol('%sasset %r (%s) is dispatched at step %d (%.6g) outside its window' % ('split optimisation: ' if mode == 'split' else '', a.name, spec['type'], int(bad[0]), v[bad[0]]),
+                     what='outside_window', asset_type=spec['type'], mode=mode)
                 break
+            if mode == 'split' and mask.any() and float(np.abs(v[mask]).max()) > 1e-6 * scale:
+                hit = True
         feats.append('windowed-asset')
+    return scale, hit
+
+
+def run_meta(scn, r):
+    feats = r['features']
+
+    def viol(msg, **facts):
+        r['violations'].append({'oracle': 'horizon_and_windows', 'detail': msg, 'facts': facts})
+    base = {k: v for k, v in scn.items() if k != 'extra_seed'}
+    for a in base['assets']:
+        feats.append('asset:' + a['type'])
+    try:
+        rec = pf.setup_mono(base)
+        pf.solve_rec(rec)
+    except Exception as e:
+        feats.append('setup-error:' + impl.err_class(e))
+        return
+    if isinstance(rec['res'], str):
+        feats.append('unsolved')
+        return
+    scale, _ = check_windows(base, rec, viol, feats)
+    if 'windowed-asset' in feats:
         r['nontrivial'] = True
-    # (b) an extra asset entirely outside the horizon is inert
     rnd = random.Random(scn['extra_seed'])
+    # (b') an extra ORDER lying entirely outside the horizon, placed anywhere in an existing order book (also before
+    #      orders that do deliver), is inert
+    obs = [k for k, a in enumerate(base['assets']) if a['type'] == 'OrderBook']
+    if obs:
+        g = base['grid']
+        T = g['T_nominal']
+        ext = copy.deepcopy(base)
+        o = ext['assets'][rnd.choice(obs)]['args']['orders']
+        where = rnd.choice(['before', 'after'])
+        s_, e_ = (gen.P(g, -6), gen.P(g, -2)) if where == 'before' else (gen.P(g, T + 1), gen.P(g, T + 4))
+        if gen.ok_local(s_, g) and gen.ok_local(e_, g):
+            pos = rnd.choice([0, 0, rnd.randint(0, len(o['start']))])
+            o['start'].insert(pos, gen.dtv(s_))
+            o['end'].insert(pos, gen.dtv(e_))
+            o['capa'].insert(pos, rnd.choice([-1, 1]) * gen.q8(rnd, 0.25, 4))
+            o['price'].insert(pos, gen.q8(rnd, -2, 15))
+            feats.append('ghost-order:%s@%d/%d' % (where, pos, len(o['start'])))
+            r['evaluated'] += 1
+            try:
+                rx = pf.setup_mono(ext)
+                pf.solve_rec(rx)
+                V0 = float(rec['res'].value)
+                if isinstance(rx['res'], str):
+                    viol('adding an order that lies outside the horizon at position %d of the order book makes the optimisation fail (%s)' % (pos, rx['res']), what='ghost_order_status')
+                elif abs(float(rx['res'].value) - V0) > 2e-6 * max(1.0, abs(V0)):
+                    viol('adding an order that lies outside the horizon at position %d of the order book changes the optimal value from %.8g to %.8g' % (pos, V0, float(rx['res'].value)), what='ghost_order_value')
+                r['nontrivial'] = True
+            except Exception as e:
+                viol('adding an order that lies outside the horizon at position %d of the order book makes set-up / optimisation / read-out raise %s (%s)' % (pos, type(e).__name__, str(e)[:120]), what='ghost_order_raises')
+    # (b) an extra asset entirely outside the horizon is inert
     ext = copy.deepcopy(base)
     ghost = outside_asset(rnd, ext)
     if ghost is None:
@@ -196,6 +247,30 @@ def run_meta(scn, r):
     r['nontrivial'] = True
 
 
+def run_split(scn, r):
+    feats = r['features']
+
+    def viol(msg, **facts):
+        r['violations'].append({'oracle': 'horizon_and_windows', 'detail': msg, 'facts': facts})
+    base = {k: v for k, v in scn.items() if k not in ('parts', 'late_start')}
+    try:
+        tg = scen.make_grid(base['grid'])
+        step = base['grid']['step_s']
+        tot = step * max(1, tg.T // scn['parts'])
+        interval = ('%dmin' % (tot // 60)) if tot % 3600 else ('%dh' % (tot // 3600))
+        rs = pf.setup_split(base, interval)
+        pf.solve_rec(rs)
+    except Exception as e:
+        feats.append('setup-error:' + impl.err_class(e))
+        return
+    if isinstance(rs['res'], str):
+        feats.append('unsolved')
+        return
+    feats.append('late-start' if scn.get('late_start') else 'no-late-start')
+    _, hit = check_windows(base, rs, viol, feats, mode='split')
+    r['nontrivial'] = bool(hit)
+
+
 def run_case(c, drv):
     r = {'evaluated': 1, 'nontrivial': False, 'features': ['stream:' + c['stream']], 'disagreements': [], 'violations': []}
     if c['stream'] == 'build':
@@ -209,6 +284,8 @@ def run_case(c, drv):
         r['features'] += rec.get('features', [])
         r['violations'] = rec.get('violations', [])
         r['nontrivial'] = bool(rec.get('nontrivial'))
+    elif c['stream'] == 'split':
+        run_split(c['case'], r)
     else:
         run_meta(c['case'], r)
     return r
